@@ -324,6 +324,9 @@ func (u *Universe) prelude(heaps []string, db *DB, usedSpec map[string]bool) str
 	sort.Strings(names)
 	for _, n := range names {
 		sf := db.SpecFns[n]
+		if strings.Contains(strings.Join(sf.Params, " "), "go:") || strings.Contains(strings.Join(sf.Params, " "), "goarr:") {
+			continue // signature mentions a Go type that was never needed in this VC
+		}
 		fmt.Fprintf(&b, "(declare-fun %s (%s) %s)\n", sf.Name, strings.Join(sf.Params, " "), sf.Ret)
 	}
 	return b.String()
